@@ -202,6 +202,10 @@ def rand_expr(r, pool, w, depth, allow_reverse=True):
     """A sliceable expression of exact width w over the (name, width) pool; None if impossible."""
     cands = [n for n, sw in pool if sw == w]
     u = r.random()
+    if cands and w >= 2 and allow_reverse and r.random() < 0.12:
+        # a slice as wide as its parent that is NOT the parent: full-width reversal, written in several styles
+        a, b = r.choice([(None, None), (w - 1, None), (-1, None), (None, -w - 1), (-1, -w - 1)])
+        return ["sl", ["sig", r.choice(cands)], ["s", a, b, -1]]
     if cands and (u < 0.35 or depth <= 0):
         return ["sig", r.choice(cands)]
     wider = [(n, sw) for n, sw in pool if sw > w]
